@@ -152,6 +152,12 @@ def stepItem (cfg : Cfg) (s : MSt) : TItem → MSt
   | .ob o => stepOb cfg s o
   | .wrote k c => { s with connOf := (k, c) :: s.connOf, unsent := s.unsent.filter (fun x => !(x == k)) }
   | .exc c => failX s s!"exception {c} escaped into the reactor"
+  -- EXTRA: a broker client that holds an unanswered request always has a connection, is connecting, or has a
+  -- retry scheduled ("the remaining unanswered requests are re-sent on a new one" needs a new one to be sought)
+  | .bcIdle b =>
+    let held := (s.reqs.filter (fun r => r.pending && r.b == b)).map (·.k)
+    if held.isEmpty then s
+    else failX s s!"broker client {b} holds the unanswered requests {held} but has no connection, no attempt in progress and no retry scheduled"
   | .lose c => { s with owedLose := s.owedLose.filter (fun x => !(x == c)), gone := s.gone ++ [c] }
   | .timers l =>
     -- after the step: exactly the unresolved requests own a pending timer, due at issued+bound, not overdue
